@@ -14,7 +14,8 @@ Inductive src :=
 | SChan (c : N) (g : gen).                                 (* Channel: mpsc receiver c + PingSource *)
 Record obj := mkObj { o_src : src; o_ext : bool (* a Dispatcher clone is held outside the loop *) }.
 
-Record slot := mkSlot { s_tok : tok; s_obj : option N }.
+(* s_gen is a ghost: how many times the slot has been (re)used; the code only stores s_tok *)
+Record slot := mkSlot { s_tok : tok; s_obj : option N; s_gen : N }.
 
 (* mpsc channel state *)
 Record chan := mkChan { ch_q : list Z; ch_senders : N; ch_bound : option N; ch_rx_alive : bool; ch_pfd : N }.
@@ -51,6 +52,13 @@ Inductive cmd :=
 
 Record script := mkScript { sc_acts : list action; sc_ret : N; sc_arg : Z }.
 
+Record env := mkEnv {
+  epoll : list epent;
+  whl : wheel;
+  fdc : fmap N;                      (* eventfd counters *)
+  pings : fmap (option (N * N));     (* ping id -> (fd, live sender handles) *)
+  chans : fmap (option chan) }.
+
 Record st := mkSt {
   slots : list slot;
   objs : fmap (option obj);
@@ -60,76 +68,78 @@ Record st := mkSt {
   idles : list N;                    (* queued idle ids, in insertion order *)
   idle_cancelled : fmap bool;
   synth : list pevent;
-  epoll : list epent;
-  whl : wheel;
-  fdc : fmap N;                      (* eventfd counters *)
-  pings : fmap (option (N * N));     (* ping id -> (fd, live sender handles) *)
-  chans : fmap (option chan);
+  en : env;
   cbn : fmap nat;                    (* callback invocation counters *)
   bsn : fmap nat;                    (* before_sleep invocation counters *)
-  running : option N;                (* dispatcher currently mutably borrowed by process_events *)
+  running : option (N * tok);        (* dispatcher mutably borrowed by process_events, and the event's registration token *)
+  ridle : option N;                  (* idle whose callback is running *)
   zombies : list N;                  (* objects released while running; dropped when processing ends *)
   halted : bool;                     (* a panic unwound the scenario *)
   log : list tline }.                (* newest first *)
 
-Definition set_slots s v := mkSt v (objs s) (toks s) (lifecycle s) (pending s) (idles s) (idle_cancelled s) (synth s) (epoll s) (whl s) (fdc s) (pings s) (chans s) (cbn s) (bsn s) (running s) (zombies s) (halted s) (log s).
-Definition set_objs s v := mkSt (slots s) v (toks s) (lifecycle s) (pending s) (idles s) (idle_cancelled s) (synth s) (epoll s) (whl s) (fdc s) (pings s) (chans s) (cbn s) (bsn s) (running s) (zombies s) (halted s) (log s).
-Definition set_toks s v := mkSt (slots s) (objs s) v (lifecycle s) (pending s) (idles s) (idle_cancelled s) (synth s) (epoll s) (whl s) (fdc s) (pings s) (chans s) (cbn s) (bsn s) (running s) (zombies s) (halted s) (log s).
-Definition set_lifecycle s v := mkSt (slots s) (objs s) (toks s) v (pending s) (idles s) (idle_cancelled s) (synth s) (epoll s) (whl s) (fdc s) (pings s) (chans s) (cbn s) (bsn s) (running s) (zombies s) (halted s) (log s).
-Definition set_pending s v := mkSt (slots s) (objs s) (toks s) (lifecycle s) v (idles s) (idle_cancelled s) (synth s) (epoll s) (whl s) (fdc s) (pings s) (chans s) (cbn s) (bsn s) (running s) (zombies s) (halted s) (log s).
-Definition set_idles s v := mkSt (slots s) (objs s) (toks s) (lifecycle s) (pending s) v (idle_cancelled s) (synth s) (epoll s) (whl s) (fdc s) (pings s) (chans s) (cbn s) (bsn s) (running s) (zombies s) (halted s) (log s).
-Definition set_idle_cancelled s v := mkSt (slots s) (objs s) (toks s) (lifecycle s) (pending s) (idles s) v (synth s) (epoll s) (whl s) (fdc s) (pings s) (chans s) (cbn s) (bsn s) (running s) (zombies s) (halted s) (log s).
-Definition set_synth s v := mkSt (slots s) (objs s) (toks s) (lifecycle s) (pending s) (idles s) (idle_cancelled s) v (epoll s) (whl s) (fdc s) (pings s) (chans s) (cbn s) (bsn s) (running s) (zombies s) (halted s) (log s).
-Definition set_epoll s v := mkSt (slots s) (objs s) (toks s) (lifecycle s) (pending s) (idles s) (idle_cancelled s) (synth s) v (whl s) (fdc s) (pings s) (chans s) (cbn s) (bsn s) (running s) (zombies s) (halted s) (log s).
-Definition set_whl s v := mkSt (slots s) (objs s) (toks s) (lifecycle s) (pending s) (idles s) (idle_cancelled s) (synth s) (epoll s) v (fdc s) (pings s) (chans s) (cbn s) (bsn s) (running s) (zombies s) (halted s) (log s).
-Definition set_fdc s v := mkSt (slots s) (objs s) (toks s) (lifecycle s) (pending s) (idles s) (idle_cancelled s) (synth s) (epoll s) (whl s) v (pings s) (chans s) (cbn s) (bsn s) (running s) (zombies s) (halted s) (log s).
-Definition set_pings s v := mkSt (slots s) (objs s) (toks s) (lifecycle s) (pending s) (idles s) (idle_cancelled s) (synth s) (epoll s) (whl s) (fdc s) v (chans s) (cbn s) (bsn s) (running s) (zombies s) (halted s) (log s).
-Definition set_chans s v := mkSt (slots s) (objs s) (toks s) (lifecycle s) (pending s) (idles s) (idle_cancelled s) (synth s) (epoll s) (whl s) (fdc s) (pings s) v (cbn s) (bsn s) (running s) (zombies s) (halted s) (log s).
-Definition set_cbn s v := mkSt (slots s) (objs s) (toks s) (lifecycle s) (pending s) (idles s) (idle_cancelled s) (synth s) (epoll s) (whl s) (fdc s) (pings s) (chans s) v (bsn s) (running s) (zombies s) (halted s) (log s).
-Definition set_bsn s v := mkSt (slots s) (objs s) (toks s) (lifecycle s) (pending s) (idles s) (idle_cancelled s) (synth s) (epoll s) (whl s) (fdc s) (pings s) (chans s) (cbn s) v (running s) (zombies s) (halted s) (log s).
-Definition set_running s v := mkSt (slots s) (objs s) (toks s) (lifecycle s) (pending s) (idles s) (idle_cancelled s) (synth s) (epoll s) (whl s) (fdc s) (pings s) (chans s) (cbn s) (bsn s) v (zombies s) (halted s) (log s).
-Definition set_zombies s v := mkSt (slots s) (objs s) (toks s) (lifecycle s) (pending s) (idles s) (idle_cancelled s) (synth s) (epoll s) (whl s) (fdc s) (pings s) (chans s) (cbn s) (bsn s) (running s) v (halted s) (log s).
-Definition set_halted s v := mkSt (slots s) (objs s) (toks s) (lifecycle s) (pending s) (idles s) (idle_cancelled s) (synth s) (epoll s) (whl s) (fdc s) (pings s) (chans s) (cbn s) (bsn s) (running s) (zombies s) v (log s).
-Definition emit s (l : tline) := mkSt (slots s) (objs s) (toks s) (lifecycle s) (pending s) (idles s) (idle_cancelled s) (synth s) (epoll s) (whl s) (fdc s) (pings s) (chans s) (cbn s) (bsn s) (running s) (zombies s) (halted s) (l :: log s).
+Definition set_epoll (s : env) v := mkEnv v (whl s) (fdc s) (pings s) (chans s).
+Definition set_whl (s : env) v := mkEnv (epoll s) v (fdc s) (pings s) (chans s).
+Definition set_fdc (s : env) v := mkEnv (epoll s) (whl s) v (pings s) (chans s).
+Definition set_pings (s : env) v := mkEnv (epoll s) (whl s) (fdc s) v (chans s).
+Definition set_chans (s : env) v := mkEnv (epoll s) (whl s) (fdc s) (pings s) v.
+Definition set_slots (s : st) v := mkSt v (objs s) (toks s) (lifecycle s) (pending s) (idles s) (idle_cancelled s) (synth s) (en s) (cbn s) (bsn s) (running s) (ridle s) (zombies s) (halted s) (log s).
+Definition set_objs (s : st) v := mkSt (slots s) v (toks s) (lifecycle s) (pending s) (idles s) (idle_cancelled s) (synth s) (en s) (cbn s) (bsn s) (running s) (ridle s) (zombies s) (halted s) (log s).
+Definition set_toks (s : st) v := mkSt (slots s) (objs s) v (lifecycle s) (pending s) (idles s) (idle_cancelled s) (synth s) (en s) (cbn s) (bsn s) (running s) (ridle s) (zombies s) (halted s) (log s).
+Definition set_lifecycle (s : st) v := mkSt (slots s) (objs s) (toks s) v (pending s) (idles s) (idle_cancelled s) (synth s) (en s) (cbn s) (bsn s) (running s) (ridle s) (zombies s) (halted s) (log s).
+Definition set_pending (s : st) v := mkSt (slots s) (objs s) (toks s) (lifecycle s) v (idles s) (idle_cancelled s) (synth s) (en s) (cbn s) (bsn s) (running s) (ridle s) (zombies s) (halted s) (log s).
+Definition set_idles (s : st) v := mkSt (slots s) (objs s) (toks s) (lifecycle s) (pending s) v (idle_cancelled s) (synth s) (en s) (cbn s) (bsn s) (running s) (ridle s) (zombies s) (halted s) (log s).
+Definition set_idle_cancelled (s : st) v := mkSt (slots s) (objs s) (toks s) (lifecycle s) (pending s) (idles s) v (synth s) (en s) (cbn s) (bsn s) (running s) (ridle s) (zombies s) (halted s) (log s).
+Definition set_synth (s : st) v := mkSt (slots s) (objs s) (toks s) (lifecycle s) (pending s) (idles s) (idle_cancelled s) v (en s) (cbn s) (bsn s) (running s) (ridle s) (zombies s) (halted s) (log s).
+Definition set_en (s : st) v := mkSt (slots s) (objs s) (toks s) (lifecycle s) (pending s) (idles s) (idle_cancelled s) (synth s) v (cbn s) (bsn s) (running s) (ridle s) (zombies s) (halted s) (log s).
+Definition set_cbn (s : st) v := mkSt (slots s) (objs s) (toks s) (lifecycle s) (pending s) (idles s) (idle_cancelled s) (synth s) (en s) v (bsn s) (running s) (ridle s) (zombies s) (halted s) (log s).
+Definition set_bsn (s : st) v := mkSt (slots s) (objs s) (toks s) (lifecycle s) (pending s) (idles s) (idle_cancelled s) (synth s) (en s) (cbn s) v (running s) (ridle s) (zombies s) (halted s) (log s).
+Definition set_running (s : st) v := mkSt (slots s) (objs s) (toks s) (lifecycle s) (pending s) (idles s) (idle_cancelled s) (synth s) (en s) (cbn s) (bsn s) v (ridle s) (zombies s) (halted s) (log s).
+Definition set_ridle (s : st) v := mkSt (slots s) (objs s) (toks s) (lifecycle s) (pending s) (idles s) (idle_cancelled s) (synth s) (en s) (cbn s) (bsn s) (running s) v (zombies s) (halted s) (log s).
+Definition set_zombies (s : st) v := mkSt (slots s) (objs s) (toks s) (lifecycle s) (pending s) (idles s) (idle_cancelled s) (synth s) (en s) (cbn s) (bsn s) (running s) (ridle s) v (halted s) (log s).
+Definition set_halted (s : st) v := mkSt (slots s) (objs s) (toks s) (lifecycle s) (pending s) (idles s) (idle_cancelled s) (synth s) (en s) (cbn s) (bsn s) (running s) (ridle s) (zombies s) v (log s).
+Definition set_log (s : st) v := mkSt (slots s) (objs s) (toks s) (lifecycle s) (pending s) (idles s) (idle_cancelled s) (synth s) (en s) (cbn s) (bsn s) (running s) (ridle s) (zombies s) (halted s) v.
+Definition emit (s : st) (l : tline) : st := set_log s (l :: log s).
+Definition eenv (s : st) (f : env -> env) : st := set_en s (f (en s)).
 
 Definition init : st :=
-  mkSt [] (fun _ => None) (fun _ => None) [] Continue [] (fun _ => false) [] [] (mkWheel [] 0) (fun _ => 0)
-       (fun _ => None) (fun _ => None) (fun _ => O) (fun _ => O) None [] false [].
+  mkSt [] (fun _ => None) (fun _ => None) [] Continue [] (fun _ => false) []
+       (mkEnv [] (mkWheel [] 0) (fun _ => 0) (fun _ => None) (fun _ => None))
+       (fun _ => O) (fun _ => O) None None [] false [].
 
 Definition panic (s : st) (kind : Z) : st := set_halted (emit s (L T_PANIC [kind])) true.
 Definition zN (n : N) : Z := Z.of_N n.
 
 (* ================= fd operations (eventfd + epoll wake) ================= *)
-Definition fd_write (s : st) (fd v : N) : st :=
-  match efd_write (fdc s fd) v with
-  | Some c' => set_epoll (set_fdc s (fupd (fdc s) fd c')) (ep_wake (epoll s) fd true)
-  | None => s   (* EAGAIN: ignored by send_ping; the scenario's raw writes ignore it too *)
+Definition fd_write (e : env) (fd v : N) : env :=
+  match efd_write (fdc e fd) v with
+  | Some c' => set_epoll (set_fdc e (fupd (fdc e) fd c')) (ep_wake (epoll e) fd true)
+  | None => e   (* EAGAIN: ignored by send_ping; the scenario's raw writes ignore it too *)
   end.
-Definition fd_read (s : st) (fd : N) : st * N :=
-  let c := fdc s fd in
-  if c =? 0 then (s, 0)
-  else (set_epoll (set_fdc s (fupd (fdc s) fd 0)) (ep_wake (epoll s) fd false), c).
+Definition fd_read (e : env) (fd : N) : env * N :=
+  let c := fdc e fd in
+  if c =? 0 then (e, 0)
+  else (set_epoll (set_fdc e (fupd (fdc e) fd 0)) (ep_wake (epoll e) fd false), c).
 
 (* ================= Generic ================= *)
-(* every source-level operation returns (ok?, new source, new state) *)
-Definition gen_register (s : st) (g : gen) (t : tok) : bool * gen * st :=
-  match ep_add (epoll s) (g_fd g) (g_int g) (g_mode g) (pack t) (fdc s (g_fd g)) with
-  | Some tbl => (true, mkGen (g_fd g) (g_int g) (g_mode g) (Some t) true, set_epoll s tbl)
-  | None => (false, g, s)
+(* every source-level operation works on the environment only: (ok?, new source, new environment) *)
+Definition gen_register (e : env) (g : gen) (t : tok) : bool * gen * env :=
+  match ep_add (epoll e) (g_fd g) (g_int g) (g_mode g) (pack t) (fdc e (g_fd g)) with
+  | Some tbl => (true, mkGen (g_fd g) (g_int g) (g_mode g) (Some t) true, set_epoll e tbl)
+  | None => (false, g, e)
   end.
-Definition gen_reregister (s : st) (g : gen) (t : tok) : bool * gen * st :=
-  match ep_mod (epoll s) (g_fd g) (g_int g) (g_mode g) (pack t) (fdc s (g_fd g)) with
-  | Some tbl => (true, mkGen (g_fd g) (g_int g) (g_mode g) (Some t) (g_poller g), set_epoll s tbl)
-  | None => (false, g, s)
+Definition gen_reregister (e : env) (g : gen) (t : tok) : bool * gen * env :=
+  match ep_mod (epoll e) (g_fd g) (g_int g) (g_mode g) (pack t) (fdc e (g_fd g)) with
+  | Some tbl => (true, mkGen (g_fd g) (g_int g) (g_mode g) (Some t) (g_poller g), set_epoll e tbl)
+  | None => (false, g, e)
   end.
-Definition gen_unregister (s : st) (g : gen) : bool * gen * st :=
-  match ep_del (epoll s) (g_fd g) with
-  | Some tbl => (true, mkGen (g_fd g) (g_int g) (g_mode g) None false, set_epoll s tbl)
-  | None => (false, g, s)
+Definition gen_unregister (e : env) (g : gen) : bool * gen * env :=
+  match ep_del (epoll e) (g_fd g) with
+  | Some tbl => (true, mkGen (g_fd g) (g_int g) (g_mode g) None false, set_epoll e tbl)
+  | None => (false, g, e)
   end.
 (* Drop for Generic: delete from the poller if a poller is recorded, ignoring errors *)
-Definition gen_drop (s : st) (g : gen) : st :=
-  if g_poller g then match ep_del (epoll s) (g_fd g) with Some tbl => set_epoll s tbl | None => s end else s.
+Definition gen_drop (e : env) (g : gen) : env :=
+  if g_poller g then match ep_del (epoll e) (g_fd g) with Some tbl => set_epoll e tbl | None => e end else e.
 
 (* result of a factory token request: None = sub-id overflow panic *)
 Definition ftoken (f : factory) : option (tok * factory) := factory_token f.
@@ -137,104 +147,104 @@ Definition ftoken (f : factory) : option (tok * factory) := factory_token f.
 (* sequential `?`-short-circuit registration of sub-sources (what batch_register! expands to) *)
 Inductive rr := RROk | RRErr | RRPanic.
 
-Fixpoint subs_register (s : st) (subs : list gen) (f : factory) : rr * list gen * factory * st :=
+Fixpoint subs_register (e : env) (subs : list gen) (f : factory) : rr * list gen * factory * env :=
   match subs with
-  | [] => (RROk, [], f, s)
+  | [] => (RROk, [], f, e)
   | g :: rest =>
       match ftoken f with
-      | None => (RRPanic, subs, f, s)
+      | None => (RRPanic, subs, f, e)
       | Some (t, f') =>
-          let '(ok, g', s') := gen_register s g t in
-          if ok then let '(r, rest', f'', s'') := subs_register s' rest f' in (r, g' :: rest', f'', s'')
-          else (RRErr, g' :: rest, f', s')
+          let '(ok, g', e') := gen_register e g t in
+          if ok then let '(r, rest', f'', e'') := subs_register e' rest f' in (r, g' :: rest', f'', e'')
+          else (RRErr, g' :: rest, f', e')
       end
   end.
-Fixpoint subs_reregister (s : st) (subs : list gen) (f : factory) : rr * list gen * factory * st :=
+Fixpoint subs_reregister (e : env) (subs : list gen) (f : factory) : rr * list gen * factory * env :=
   match subs with
-  | [] => (RROk, [], f, s)
+  | [] => (RROk, [], f, e)
   | g :: rest =>
       match ftoken f with
-      | None => (RRPanic, subs, f, s)
+      | None => (RRPanic, subs, f, e)
       | Some (t, f') =>
-          let '(ok, g', s') := gen_reregister s g t in
-          if ok then let '(r, rest', f'', s'') := subs_reregister s' rest f' in (r, g' :: rest', f'', s'')
-          else (RRErr, g' :: rest, f', s')
+          let '(ok, g', e') := gen_reregister e g t in
+          if ok then let '(r, rest', f'', e'') := subs_reregister e' rest f' in (r, g' :: rest', f'', e'')
+          else (RRErr, g' :: rest, f', e')
       end
   end.
-Fixpoint subs_unregister (s : st) (subs : list gen) : bool * list gen * st :=
+Fixpoint subs_unregister (e : env) (subs : list gen) : bool * list gen * env :=
   match subs with
-  | [] => (true, [], s)
+  | [] => (true, [], e)
   | g :: rest =>
-      let '(ok, g', s') := gen_unregister s g in
-      if ok then let '(r, rest', s'') := subs_unregister s' rest in (r, g' :: rest', s'')
-      else (false, g' :: rest, s')
+      let '(ok, g', e') := gen_unregister e g in
+      if ok then let '(r, rest', e'') := subs_unregister e' rest in (r, g' :: rest', e'')
+      else (false, g' :: rest, e')
   end.
 
 (* ================= EventSource::{register,reregister,unregister} per kind ================= *)
-Definition timer_unregister (s : st) (t : timer) : timer * st :=
+Definition timer_unregister (e : env) (t : timer) : timer * env :=
   match tm_reg t with
-  | Some (_, c) => (mkTimer None (tm_dl t), set_whl s (wh_cancel (whl s) c))
-  | None => (t, s)
+  | Some (_, c) => (mkTimer None (tm_dl t), set_whl e (wh_cancel (whl e) c))
+  | None => (t, e)
   end.
-Definition timer_register (s : st) (t : timer) (f : factory) : rr * timer * st :=
+Definition timer_register (e : env) (t : timer) (f : factory) : rr * timer * env :=
   match tm_dl t with
   | Some dl =>
       match ftoken f with
-      | None => (RRPanic, t, s)
+      | None => (RRPanic, t, e)
       | Some (tk, _) =>
-          let (w', c) := wh_insert (whl s) dl tk in
-          (RROk, mkTimer (Some (tk, c)) (tm_dl t), set_whl s w')
+          let (w', c) := wh_insert (whl e) dl tk in
+          (RROk, mkTimer (Some (tk, c)) (tm_dl t), set_whl e w')
       end
-  | None => (RROk, t, s)
+  | None => (RROk, t, e)
   end.
 
-Definition one_gen (r : bool * gen * st) (k : gen -> src) : rr * src * st :=
-  let '(ok, g', s') := r in ((if ok then RROk else RRErr), k g', s').
+Definition one_gen (r : bool * gen * env) (k : gen -> src) : rr * src * env :=
+  let '(ok, g', e') := r in ((if ok then RROk else RRErr), k g', e').
 
-Definition src_register (s : st) (x : src) (f : factory) : rr * src * st :=
+Definition src_register (e : env) (x : src) (f : factory) : rr * src * env :=
   match x with
   | SComp lc own subs =>
       match ftoken f with
-      | None => (RRPanic, x, s)
-      | Some (t, f') => let '(r, subs', _, s') := subs_register s subs f' in (r, SComp lc (Some t) subs', s')
+      | None => (RRPanic, x, e)
+      | Some (t, f') => let '(r, subs', _, e') := subs_register e subs f' in (r, SComp lc (Some t) subs', e')
       end
-  | SPing g => match ftoken f with None => (RRPanic, x, s) | Some (t, _) => one_gen (gen_register s g t) SPing end
-  | SChan c g => match ftoken f with None => (RRPanic, x, s) | Some (t, _) => one_gen (gen_register s g t) (SChan c) end
-  | STimer t => let '(r, t', s') := timer_register s t f in (r, STimer t', s')
+  | SPing g => match ftoken f with None => (RRPanic, x, e) | Some (t, _) => one_gen (gen_register e g t) SPing end
+  | SChan c g => match ftoken f with None => (RRPanic, x, e) | Some (t, _) => one_gen (gen_register e g t) (SChan c) end
+  | STimer t => let '(r, t', e') := timer_register e t f in (r, STimer t', e')
   end.
-Definition src_reregister (s : st) (x : src) (f : factory) : rr * src * st :=
+Definition src_reregister (e : env) (x : src) (f : factory) : rr * src * env :=
   match x with
   | SComp lc own subs =>
       match ftoken f with
-      | None => (RRPanic, x, s)
-      | Some (t, f') => let '(r, subs', _, s') := subs_reregister s subs f' in (r, SComp lc (Some t) subs', s')
+      | None => (RRPanic, x, e)
+      | Some (t, f') => let '(r, subs', _, e') := subs_reregister e subs f' in (r, SComp lc (Some t) subs', e')
       end
-  | SPing g => match ftoken f with None => (RRPanic, x, s) | Some (t, _) => one_gen (gen_reregister s g t) SPing end
-  | SChan c g => match ftoken f with None => (RRPanic, x, s) | Some (t, _) => one_gen (gen_reregister s g t) (SChan c) end
-  | STimer t => let (t1, s1) := timer_unregister s t in
-                let '(r, t', s') := timer_register s1 t1 f in (r, STimer t', s')
+  | SPing g => match ftoken f with None => (RRPanic, x, e) | Some (t, _) => one_gen (gen_reregister e g t) SPing end
+  | SChan c g => match ftoken f with None => (RRPanic, x, e) | Some (t, _) => one_gen (gen_reregister e g t) (SChan c) end
+  | STimer t => let (t1, e1) := timer_unregister e t in
+                let '(r, t', e') := timer_register e1 t1 f in (r, STimer t', e')
   end.
-Definition src_unregister (s : st) (x : src) : bool * src * st :=
+Definition src_unregister (e : env) (x : src) : bool * src * env :=
   match x with
-  | SComp lc own subs => let '(ok, subs', s') := subs_unregister s subs in (ok, SComp lc own subs', s')
-  | SPing g => let '(ok, g', s') := gen_unregister s g in (ok, SPing g', s')
-  | SChan c g => let '(ok, g', s') := gen_unregister s g in (ok, SChan c g', s')
-  | STimer t => let (t', s') := timer_unregister s t in (true, STimer t', s')
+  | SComp lc own subs => let '(ok, subs', e') := subs_unregister e subs in (ok, SComp lc own subs', e')
+  | SPing g => let '(ok, g', e') := gen_unregister e g in (ok, SPing g', e')
+  | SChan c g => let '(ok, g', e') := gen_unregister e g in (ok, SChan c g', e')
+  | STimer t => let (t', e') := timer_unregister e t in (true, STimer t', e')
   end.
 Definition src_lc (x : src) : bool := match x with SComp lc _ _ => lc | _ => false end.
 
 (* dropping a source object (last Rc gone) *)
-Definition src_drop (s : st) (x : src) : st :=
+Definition src_drop (e : env) (x : src) : env :=
   match x with
-  | SComp _ _ subs => fold_left gen_drop subs s
-  | SPing g => gen_drop s g
+  | SComp _ _ subs => fold_left gen_drop subs e
+  | SPing g => gen_drop e g
   | SChan c g =>
-      let s1 := gen_drop s g in
-      match chans s1 c with
-      | Some ch => set_chans s1 (fupd (chans s1) c (Some (mkChan (ch_q ch) (ch_senders ch) (ch_bound ch) false (ch_pfd ch))))
-      | None => s1
+      let e1 := gen_drop e g in
+      match chans e1 c with
+      | Some ch => set_chans e1 (fupd (chans e1) c (Some (mkChan (ch_q ch) (ch_senders ch) (ch_bound ch) false (ch_pfd ch))))
+      | None => e1
       end
-  | STimer _ => s
+  | STimer _ => e
   end.
 
 (* ================= DispatcherInner (sources/mod.rs) ================= *)
@@ -247,7 +257,7 @@ Definition set_obj_src (s : st) (o : N) (x : src) : st :=
   | Some ob => set_objs s (fupd (objs s) o (Some (mkObj x (o_ext ob))))
   | None => s
   end.
-Definition is_running (s : st) (o : N) : bool := match running s with Some r => r =? o | None => false end.
+Definition is_running (s : st) (o : N) : bool := match running s with Some (r, _) => r =? o | None => false end.
 
 (* register: borrow_mut (panics when running); the lifecycle entry is recorded after the source registered *)
 Definition disp_register (s : st) (o : N) (slot_tok : tok) : res * st :=
@@ -256,23 +266,23 @@ Definition disp_register (s : st) (o : N) (slot_tok : tok) : res * st :=
   | Some ob =>
       if is_running s o then (ROther, panic s P_BORROW)
       else
-        let '(r, x', s1) := src_register s (o_src ob) (factory_new slot_tok) in
-        let s2 := set_obj_src s1 o x' in
+        let '(r, x', e1) := src_register (en s) (o_src ob) (factory_new slot_tok) in
+        let s2 := set_obj_src (set_en s e1) o x' in
         match r with
         | RRPanic => (ROther, panic s2 P_SUBID)
         | RRErr => (RIo, s2)
         | RROk => (ROk, if src_lc x' then set_lifecycle s2 (lc_register (lifecycle s2) (forget_sub_id slot_tok)) else s2)
         end
   end.
-(* reregister: try_borrow_mut; Some false = deferred *)
+(* reregister: try_borrow_mut; false = deferred *)
 Definition disp_reregister (s : st) (o : N) (slot_tok : tok) : res * bool * st :=
   match objs s o with
   | None => (ROther, true, s)
   | Some ob =>
       if is_running s o then (ROk, false, s)
       else
-        let '(r, x', s1) := src_reregister s (o_src ob) (factory_new slot_tok) in
-        let s2 := set_obj_src s1 o x' in
+        let '(r, x', e1) := src_reregister (en s) (o_src ob) (factory_new slot_tok) in
+        let s2 := set_obj_src (set_en s e1) o x' in
         match r with
         | RRPanic => (ROther, true, panic s2 P_SUBID)
         | RRErr => (RIo, true, s2)
@@ -286,8 +296,8 @@ Definition disp_unregister (s : st) (o : N) (reg_tok : tok) : res * bool * st :=
   | Some ob =>
       if is_running s o then (ROk, false, s)
       else
-        let '(ok, x', s1) := src_unregister s (o_src ob) in
-        let s2 := set_obj_src s1 o x' in
+        let '(ok, x', e1) := src_unregister (en s) (o_src ob) in
+        let s2 := set_obj_src (set_en s e1) o x' in
         let s3 := if src_lc x' then set_lifecycle s2 (lc_unregister (lifecycle s2) reg_tok) else s2 in
         ((if ok then ROk else RIo), true, s3)
   end.
@@ -302,11 +312,11 @@ Fixpoint find_vacant (l : list slot) (i : nat) : option nat :=
 Definition vacant_entry (l : list slot) : option (nat * list slot) :=
   match find_vacant l O with
   | Some i => match nth_error l i with
-              | Some sl => Some (i, upd l i (mkSlot (increment_version (s_tok sl)) None))
+              | Some sl => Some (i, upd l i (mkSlot (increment_version (s_tok sl)) None (s_gen sl + 1)))
               | None => None
               end
   | None => match tok_new (N.of_nat (length l)) with
-            | Some t => Some (length l, l ++ [mkSlot t None])
+            | Some t => Some (length l, l ++ [mkSlot t None 0])
             | None => None
             end
   end.
@@ -318,7 +328,7 @@ Definition slot_get (l : list slot) (t : tok) : option slot :=
   end.
 Definition slot_set_obj (l : list slot) (t : tok) (v : option N) : list slot :=
   match nth_error l (N.to_nat (t_id t)) with
-  | Some sl => upd l (N.to_nat (t_id t)) (mkSlot (s_tok sl) v)
+  | Some sl => upd l (N.to_nat (t_id t)) (mkSlot (s_tok sl) v (s_gen sl))
   | None => l
   end.
 
@@ -326,8 +336,7 @@ Definition slot_set_obj (l : list slot) (t : tok) (v : option N) : list slot :=
 Definition in_slots (l : list slot) (o : N) : bool :=
   existsb (fun sl => match s_obj sl with Some x => x =? o | None => false end) l.
 Definition drop_obj (s : st) (o : N) (ob : obj) : st :=
-  let s1 := src_drop s (o_src ob) in
-  emit (set_objs s1 (fupd (objs s1) o None)) (L T_DROP [zN o]).
+  emit (set_objs (set_en s (src_drop (en s) (o_src ob))) (fupd (objs s) o None)) (L T_DROP [zN o]).
 Definition maybe_drop (s : st) (o : N) : st :=
   match objs s o with
   | Some ob =>
@@ -353,12 +362,12 @@ Definition do_insert (s : st) (h : N) (x : src) : st :=
       | None => panic s0 P_OTHER
       | Some e =>
           let t := s_tok e in
-          let s1 := set_slots s0 (upd sl i (mkSlot t (Some h))) in
+          let s1 := set_slots s0 (upd sl i (mkSlot t (Some h) (s_gen e))) in
           let (r, s2) := disp_register s1 h t in
           if halted s2 then s2 else
           match r with
           | ROk => emit (set_toks s2 (fupd (toks s2) h (Some t))) (op_line OP_INSERT h ROk)
-          | _ => emit (set_slots s2 (upd (slots s2) i (mkSlot t None))) (op_line OP_INSERT h r)
+          | _ => emit (set_slots s2 (upd (slots s2) i (mkSlot t None (s_gen e)))) (op_line OP_INSERT h r)
           end
       end
   end.
@@ -456,67 +465,70 @@ Definition do_dropdisp (s : st) (h : N) : st :=
   | None => emit s (op_line OP_DROPDISP h RInvalid)
   end.
 
-(* ================= ping handles and channels (single-threaded histories) ================= *)
-Definition do_ping (s : st) (p : N) : st :=
-  match pings s p with
-  | Some (fd, n) => if 0 <? n then fd_write s fd INCREMENT_PING else s
-  | None => s
+(* ================= ping handles and channels (single-threaded histories): environment only ================= *)
+Definition do_ping (e : env) (p : N) : env :=
+  match pings e p with
+  | Some (fd, n) => if 0 <? n then fd_write e fd INCREMENT_PING else e
+  | None => e
   end.
-Definition do_clonep (s : st) (p : N) : st :=
-  match pings s p with
-  | Some (fd, n) => if 0 <? n then set_pings s (fupd (pings s) p (Some (fd, n + 1))) else s
-  | None => s
+Definition do_clonep (e : env) (p : N) : env :=
+  match pings e p with
+  | Some (fd, n) => if 0 <? n then set_pings e (fupd (pings e) p (Some (fd, n + 1))) else e
+  | None => e
   end.
-Definition do_dropp (s : st) (p : N) : st :=
-  match pings s p with
+Definition do_dropp (e : env) (p : N) : env :=
+  match pings e p with
   | Some (fd, n) =>
-      if n =? 0 then s
-      else let s1 := set_pings s (fupd (pings s) p (Some (fd, n - 1))) in
-           if n =? 1 then fd_write s1 fd INCREMENT_CLOSE else s1
-  | None => s
+      if n =? 0 then e
+      else let e1 := set_pings e (fupd (pings e) p (Some (fd, n - 1))) in
+           if n =? 1 then fd_write e1 fd INCREMENT_CLOSE else e1
+  | None => e
   end.
 
 Definition chan_full (ch : chan) : bool :=
   match ch_bound ch with Some b => b <=? N.of_nat (length (ch_q ch)) | None => false end.
-(* Sender::send / SyncSender::try_send on a single thread: 0 Ok, 1 Full, 2 Disconnected *)
-Definition do_send (s : st) (c : N) (v : Z) (code : Z) : st :=
-  match chans s c with
+(* Sender::send / SyncSender::try_send on a single thread: result code 0 Ok, 1 Full, 2 Disconnected; None = no sender *)
+Definition env_send (e : env) (c : N) (v : Z) : env * option Z :=
+  match chans e c with
   | Some ch =>
-      if ch_senders ch =? 0 then s
-      else if negb (ch_rx_alive ch) then emit s (L T_OP [code; zN c; 2%Z])
-      else if chan_full ch then
-        (* try_send pings on Full too *)
-        emit (fd_write s (ch_pfd ch) INCREMENT_PING) (L T_OP [code; zN c; 1%Z])
+      if ch_senders ch =? 0 then (e, None)
+      else if negb (ch_rx_alive ch) then (e, Some 2%Z)
+      else if chan_full ch then (fd_write e (ch_pfd ch) INCREMENT_PING, Some 1%Z)   (* try_send pings on Full too *)
       else
         let ch' := mkChan (ch_q ch ++ [v]) (ch_senders ch) (ch_bound ch) (ch_rx_alive ch) (ch_pfd ch) in
-        emit (fd_write (set_chans s (fupd (chans s) c (Some ch'))) (ch_pfd ch) INCREMENT_PING) (L T_OP [code; zN c; 0%Z])
-  | None => s
+        (fd_write (set_chans e (fupd (chans e) c (Some ch'))) (ch_pfd ch) INCREMENT_PING, Some 0%Z)
+  | None => (e, None)
   end.
-Definition do_clonesender (s : st) (c : N) : st :=
-  match chans s c with
-  | Some ch => if ch_senders ch =? 0 then s
-               else set_chans s (fupd (chans s) c (Some (mkChan (ch_q ch) (ch_senders ch + 1) (ch_bound ch) (ch_rx_alive ch) (ch_pfd ch))))
-  | None => s
+Definition do_send (s : st) (c : N) (v : Z) (code : Z) : st :=
+  let (e', r) := env_send (en s) c v in
+  match r with
+  | Some rc => emit (set_en s e') (L T_OP [code; zN c; rc])
+  | None => set_en s e'
+  end.
+Definition do_clonesender (e : env) (c : N) : env :=
+  match chans e c with
+  | Some ch => if ch_senders ch =? 0 then e
+               else set_chans e (fupd (chans e) c (Some (mkChan (ch_q ch) (ch_senders ch + 1) (ch_bound ch) (ch_rx_alive ch) (ch_pfd ch))))
+  | None => e
   end.
 (* dropping a Sender pings (PingOnDrop); a SyncSender clone only pings when it is the last (Arc<PingOnDrop>) *)
-Definition do_dropsender (s : st) (c : N) : st :=
-  match chans s c with
+Definition do_dropsender (e : env) (c : N) : env :=
+  match chans e c with
   | Some ch =>
-      if ch_senders ch =? 0 then s
+      if ch_senders ch =? 0 then e
       else
-        let s1 := set_chans s (fupd (chans s) c (Some (mkChan (ch_q ch) (ch_senders ch - 1) (ch_bound ch) (ch_rx_alive ch) (ch_pfd ch)))) in
+        let e1 := set_chans e (fupd (chans e) c (Some (mkChan (ch_q ch) (ch_senders ch - 1) (ch_bound ch) (ch_rx_alive ch) (ch_pfd ch)))) in
         match ch_bound ch with
-        | None => fd_write s1 (ch_pfd ch) INCREMENT_PING
-        | Some _ => if ch_senders ch =? 1 then fd_write s1 (ch_pfd ch) INCREMENT_PING else s1
+        | None => fd_write e1 (ch_pfd ch) INCREMENT_PING
+        | Some _ => if ch_senders ch =? 1 then fd_write e1 (ch_pfd ch) INCREMENT_PING else e1
         end
-  | None => s
+  | None => e
   end.
 
 Definition do_idle (s : st) (i : N) : st := set_idle_cancelled (set_idles s (idles s ++ [i])) (fupd (idle_cancelled s) i false).
-Definition IDLE_BASE : N := 1000000.
 (* Idle::cancel borrows the idle's cell mutably: cancelling the idle whose callback is running panics *)
 Definition do_cancelidle (s : st) (i : N) : st :=
-  if is_running s (IDLE_BASE + i) then panic s P_BORROW
+  if match ridle s with Some r => r =? i | None => false end then panic s P_BORROW
   else set_idle_cancelled s (fupd (idle_cancelled s) i true).
 
 Definition exec_action (s : st) (a : action) : st :=
@@ -531,23 +543,24 @@ Definition exec_action (s : st) (a : action) : st :=
   | ASetDl h dl => do_setdl s h dl
   | AIntoInner h => do_intoinner s h
   | ADropDisp h => do_dropdisp s h
-  | AFdWrite fd v => fd_write s fd v
-  | AFdRead fd => fst (fd_read s fd)
-  | APing p => do_ping s p
-  | AcloneP p => do_clonep s p
-  | ADropP p => do_dropp s p
+  | AFdWrite fd v => eenv s (fun e => fd_write e fd v)
+  | AFdRead fd => eenv s (fun e => fst (fd_read e fd))
+  | APing p => eenv s (fun e => do_ping e p)
+  | AcloneP p => eenv s (fun e => do_clonep e p)
+  | ADropP p => eenv s (fun e => do_dropp e p)
   | ASend c v => do_send s c v OP_SEND
   | ATrySend c v => do_send s c v OP_TRYSEND
-  | ADropSender c => do_dropsender s c
-  | ACloneSender c => do_clonesender s c
+  | ADropSender c => eenv s (fun e => do_dropsender e c)
+  | ACloneSender c => eenv s (fun e => do_clonesender e c)
   | AIdle i => do_idle s i
   | ACancelIdle i => do_cancelidle s i
-  | ANewPing p fd => set_pings s (fupd (pings s) p (Some (fd, 1)))
-  | ANewChan c fd b => set_chans s (fupd (chans s) c (Some (mkChan [] 1 b true fd)))
+  | ANewPing p fd => eenv s (fun e => set_pings e (fupd (pings e) p (Some (fd, 1))))
+  | ANewChan c fd b => eenv s (fun e => set_chans e (fupd (chans e) c (Some (mkChan [] 1 b true fd))))
   end.
 Definition exec_actions (s : st) (l : list action) : st := fold_left exec_action l s.
 
 (* ================= event processing ================= *)
+Definition IDLE_BASE : N := 1000000.
 Definition scripts := N -> list script.
 Definition bscripts := N -> list N.
 Definition default_script : script := mkScript [] 0 0%Z.
@@ -572,16 +585,13 @@ Fixpoint find_sub (subs : list gen) (t : tok) (j : nat) : option nat :=
 Definition pa_of_ret (n : N) : option postaction :=
   match n with 0 => Some Continue | 1 => Some Reregister | 2 => Some Disable | 3 => Some Remove | _ => None end.
 
-(* PingSource::process_events around a closure k run when a ping is seen *)
-Definition ping_process (s : st) (g : gen) (t : tok) (k : st -> st) : st * option postaction * bool :=
+(* PingSource::process_events: token check, drain, decode. Returns (state, result, ping seen) *)
+Definition ping_drain (s : st) (g : gen) (t : tok) : st * option postaction * bool :=
   if opt_tok_is (g_tok g) t then
-    let (s1, v) := fd_read s (g_fd g) in
+    let (e1, v) := fd_read (en s) (g_fd g) in
+    let s1 := set_en s e1 in
     if v =? 0 then (s1, None, false)
-    else
-      let ping := 2 <=? v in
-      let close := N.odd v in
-      let s2 := if ping then k s1 else s1 in
-      (s2, Some (if close then Remove else Continue), ping)
+    else (s1, Some (if N.odd v then Remove else Continue), 2 <=? v)
   else (s, Some Continue, false).
 
 (* Channel's drain loop; returns (state, clear_readiness, disconnected) *)
@@ -590,12 +600,12 @@ Fixpoint chan_loop (scr : scripts) (fuel : nat) (s : st) (h c : N) : st * bool *
   | O => (s, false, false)
   | S f =>
       if halted s then (s, true, false) else
-      match chans s c with
+      match chans (en s) c with
       | None => (s, true, false)
       | Some ch =>
           match ch_q ch with
           | v :: q' =>
-              let s1 := set_chans s (fupd (chans s) c (Some (mkChan q' (ch_senders ch) (ch_bound ch) (ch_rx_alive ch) (ch_pfd ch)))) in
+              let s1 := eenv s (fun e => set_chans e (fupd (chans e) c (Some (mkChan q' (ch_senders ch) (ch_bound ch) (ch_rx_alive ch) (ch_pfd ch))))) in
               let (s2, _) := callback scr s1 h 0%Z v in
               chan_loop scr f s2 h c
           | [] =>
@@ -605,8 +615,8 @@ Fixpoint chan_loop (scr : scripts) (fuel : nat) (s : st) (h c : N) : st * bool *
           end
       end
   end.
-Definition chan_max (s : st) (c : N) : nat :=
-  match chans s c with
+Definition chan_max (e : env) (c : N) : nat :=
+  match chans e c with
   | Some ch => match ch_bound ch with
                | Some b => N.to_nat (N.min (b + 1) MAX_EVENTS_CHECK)
                | None => N.to_nat MAX_EVENTS_CHECK
@@ -628,7 +638,8 @@ Definition obj_process (scr : scripts) (s : st) (o : N) (ev : pevent) : st * opt
           | None => (s, Some Continue)
           end
       | SPing g =>
-          let '(s1, r, _) := ping_process s g t (fun s0 => fst (callback scr s0 o 0%Z 0%Z)) in (s1, r)
+          let '(s1, r, pinged) := ping_drain s g t in
+          (if pinged then fst (callback scr s1 o 0%Z 0%Z) else s1, r)
       | STimer tm =>
           match tm_reg tm, tm_dl tm with
           | Some (tk, c), Some dl =>
@@ -636,7 +647,7 @@ Definition obj_process (scr : scripts) (s : st) (o : N) (ev : pevent) : st * opt
                 let (s1, sc) := callback scr s o 0%Z dl in
                 match sc_ret sc with
                 | 0 => (s1, Some Remove)                                    (* TimeoutAction::Drop *)
-                | 1 => (set_obj_src (set_whl s1 (wh_insert_reuse (whl s1) c (sc_arg sc) tk)) o
+                | 1 => (set_obj_src (eenv s1 (fun e => set_whl e (wh_insert_reuse (whl e) c (sc_arg sc) tk))) o
                                     (STimer (mkTimer (Some (tk, c)) (Some (sc_arg sc)))), Some Continue)   (* ToInstant *)
                 | _ => (set_obj_src s1 o (STimer (mkTimer (Some (tk, c)) None)), Some Remove)  (* ToDuration(MAX) *)
                 end
@@ -644,16 +655,15 @@ Definition obj_process (scr : scripts) (s : st) (o : N) (ev : pevent) : st * opt
           | _, _ => (s, Some Continue)
           end
       | SChan c g =>
-          let mx := chan_max s c in
-          (* the closure's outputs are recovered by running it on the post-drain state *)
-          let '(s1, r, pinged) := ping_process s g t (fun s0 => s0) in
+          let mx := chan_max (en s) c in
+          let '(s1, r, pinged) := ping_drain s g t in
           match r with
           | None => (s1, None)
           | Some act =>
               let '(s2, clear, disc) := if pinged then chan_loop scr mx s1 o c else (s1, false, false) in
               if disc then (s2, Some Remove)
               else if clear then (s2, Some act)
-              else (fd_write s2 (g_fd g) INCREMENT_PING, Some Continue)
+              else (eenv s2 (fun e => fd_write e (g_fd g) INCREMENT_PING), Some Continue)
           end
       end
   end.
@@ -674,6 +684,20 @@ Definition slot_vacant_for (s : st) (reg : tok) : bool :=
   | None => true
   end.
 
+(* the post-action switch of dispatch_events; false = `?` returned an error *)
+Definition apply_post (s : st) (o : N) (reg : tok) (r : postaction) : bool * st :=
+  match r with
+  | Reregister => let '(rs, _, sx) := disp_reregister s o reg in
+                  (match rs with ROk => true | _ => false end, sx)
+  | Disable => let '(rs, _, sx) := disp_unregister s o reg in
+               (match rs with ROk => true | _ => false end, sx)
+  | Remove => (true, match slot_get (slots s) reg with
+                     | Some _ => set_slots s (slot_set_obj (slots s) reg None)
+                     | None => s
+                     end)
+  | Continue => (true, s)
+  end.
+
 (* one iteration of the event loop of dispatch_events; false = the dispatch returns Err here *)
 Definition process_event (scr : scripts) (s : st) (ev : pevent) : st * bool :=
   let reg := forget_sub_id (unpack (ev_key ev)) in
@@ -683,7 +707,7 @@ Definition process_event (scr : scripts) (s : st) (ev : pevent) : st * bool :=
       match s_obj sl with
       | None => (s, true)
       | Some o =>
-          let (s2, ret) := obj_process scr (set_running s (Some o)) o ev in
+          let (s2, ret) := obj_process scr (set_running s (Some (o, reg))) o ev in
           if halted s2 then (s2, false) else
           let s3 := set_running s2 None in
           let p := pending s3 in
@@ -692,18 +716,7 @@ Definition process_event (scr : scripts) (s : st) (ev : pevent) : st * bool :=
           | None => (end_processing s4 o, false)
           | Some r =>
               let r' := match r with Continue => p | _ => r end in
-              let '(ok, s5) :=
-                match r' with
-                | Reregister => let '(rs, _, sx) := disp_reregister s4 o reg in
-                                (match rs with ROk => true | _ => false end, sx)
-                | Disable => let '(rs, _, sx) := disp_unregister s4 o reg in
-                             (match rs with ROk => true | _ => false end, sx)
-                | Remove => (true, match slot_get (slots s4) reg with
-                                   | Some _ => set_slots s4 (slot_set_obj (slots s4) reg None)
-                                   | None => s4
-                                   end)
-                | Continue => (true, s4)
-                end in
+              let '(ok, s5) := apply_post s4 o reg r' in
               if halted s5 then (s5, false) else
               if negb ok then (end_processing s5 o, false)
               else
@@ -794,12 +807,20 @@ Fixpoint run_idles (scr : scripts) (s : st) (l : list N) : st :=
       else if idle_cancelled s i then run_idles scr s r
       else
         let sc := nth O (scr (IDLE_BASE + i)) default_script in
-        let s1 := set_running (emit s (L T_IDLE [zN i])) (Some (IDLE_BASE + i)) in
+        let s1 := set_ridle (emit s (L T_IDLE [zN i])) (Some i) in
         let s2 := exec_actions s1 (sc_acts sc) in
-        if halted s2 then s2 else run_idles scr (set_running s2 None) r
+        if halted s2 then s2 else run_idles scr (set_ridle s2 None) r
   end.
 
 Definition DISP_OK := 0%Z. Definition DISP_ERR := 1%Z.
+
+(* Poll::poll: fd events from the poller, then every expired timer; the order is the implementation's *)
+Definition poll (e : env) (t : Z) (order : list N) : list pevent * env :=
+  let now := (2 * t + 1)%Z in
+  let (fdev, tbl) := ep_wait (fdc e) (epoll e) in
+  let (expired, rest) := wh_expire (length (wh_heap (whl e))) (wh_heap (whl e)) now in
+  let tev := map (fun w => mkEv (pack (w_tok w)) (mkRd true false)) expired in
+  (reorder order (fdev ++ tev), set_whl (set_epoll e tbl) (mkWheel rest (wh_ctr (whl e)))).
 
 Definition dispatch (scr : scripts) (bscr : bscripts) (s : st) (t : Z) (order : list N) : st :=
   let '(s1, bs) := before_sleep_loop bscr s (lifecycle s) in
@@ -807,13 +828,8 @@ Definition dispatch (scr : scripts) (bscr : bscripts) (s : st) (t : Z) (order : 
   | 2 => s1
   | 1 => emit s1 (L T_DISP [t; DISP_ERR])
   | _ =>
-      let now := (2 * t + 1)%Z in
-      let (fdev, tbl) := ep_wait (fdc s1) (epoll s1) in
-      let (expired, rest) := wh_expire (length (wh_heap (whl s1))) (wh_heap (whl s1)) now in
-      let tev := map (fun w => mkEv (pack (w_tok w)) (mkRd true false)) expired in
-      let polled := reorder order (fdev ++ tev) in
-      let s2 := set_whl (set_epoll s1 tbl) (mkWheel rest (wh_ctr (whl s1))) in
-      let s3 := emit s2 (L T_BATCH (zsort (map ev_code polled))) in
+      let (polled, e2) := poll (en s1) t order in
+      let s3 := emit (set_en s1 e2) (L T_BATCH (zsort (map ev_code polled))) in
       let (s4, ok) := before_handle_loop s3 (lifecycle s3) polled in
       if negb ok then s4 else
       let evs := synth s4 ++ polled in
@@ -830,12 +846,12 @@ Definition dispatch (scr : scripts) (bscr : bscripts) (s : st) (t : Z) (order : 
 Definition stats_lines (s : st) : list tline :=
   map (fun sl => L T_SLOT [zN (pack (s_tok sl)); match s_obj sl with Some _ => 1 | None => 0 end]%Z) (slots s)
   ++ [L T_LIFE (map (fun t => zN (pack t)) (lifecycle s))]
-  ++ [L T_WHEEL (zsort (map (fun w => (zN (w_ctr w) * 18446744073709551616 + zN (pack (w_tok w)))%Z) (wh_heap (whl s))))]
-  ++ [L T_STATS [zN (pa_code (pending s)); Z.of_nat (length (idles s)); zN (wh_ctr (whl s))]].
+  ++ [L T_WHEEL (zsort (map (fun w => (zN (w_ctr w) * 18446744073709551616 + zN (pack (w_tok w)))%Z) (wh_heap (whl (en s)))))]
+  ++ [L T_STATS [zN (pa_code (pending s)); Z.of_nat (length (idles s)); zN (wh_ctr (whl (en s)))]].
 Definition ep_line (e : epent) : Z :=
   let shown := match e_mode e with OneShot => if e_q e then int_code (e_int e) else 0 | _ => int_code (e_int e) end in
   (((zN (e_fd e) * 4 + zN shown) * 4 + zN (mode_code (e_mode e))) * 18446744073709551616 + zN (e_key e))%Z.
-Definition epoll_lines (s : st) : list tline := [L T_EP (zsort (map ep_line (epoll s)))].
+Definition epoll_lines (s : st) : list tline := [L T_EP (zsort (map ep_line (epoll (en s))))].
 
 Definition emits (s : st) (l : list tline) : st := fold_left emit l s.
 
